@@ -674,6 +674,12 @@ static void random_cfg(struct cfg *c)
 		c->rate = atoi(getenv("C14_RATE"));
 }
 
+static void env_overrides_late(struct cfg *c)
+{
+	if (getenv("C14_A500") != NULL)
+		c->a500 = atoi(getenv("C14_A500"));
+}
+
 static int module_len(const char *path)
 {
 	/* order-list length via a throw-away context (used to choose a start position) */
@@ -978,7 +984,9 @@ static int render16(const char *path, const struct cfg *c, int nframes, struct r
 	return 0;
 }
 
-static int mode_solosum(uint64_t seed, int nframes, const char *path)
+/* returns the number of samples beyond the tolerance (-1: not applicable); `a500`: -1 = as drawn,
+ * 0 = forced off (used to attribute a failure to the Paula kernels); quiet = no output */
+static long mode_solosum(uint64_t seed, int nframes, const char *path, int a500, int quiet)
 {
 	struct cfg c, cg;
 	struct render full, part;
@@ -993,21 +1001,26 @@ static int mode_solosum(uint64_t seed, int nframes, const char *path)
 	c.fmt &= XMP_FORMAT_MONO;	/* 16-bit signed */
 	c.amp = vrng_below(2);
 	c.a500 = vrng_chance(15);
+	env_overrides_late(&c);
+	if (a500 >= 0)
+		c.a500 = a500;
 	c.master = vrng_chance(50) ? 100 : vrng_range(20, 120);
 	for (i = 0; i < XMP_MAX_CHANNELS; i++)
 		c.mute[i] = 0;
 	len = module_len(path);
 	if (len <= 0) {
-		printf("skip %s\n", path);
-		return 0;
+		if (!quiet)
+			printf("skip %s\n", path);
+		return -1;
 	}
 	c.startpos = vrng_chance(60) ? 0 : (int)vrng_below(len);
 
 	x = xmp_create_context();
 	if (xmp_load_module(x, path) < 0) {
 		xmp_free_context(x);
-		printf("skip %s\n", path);
-		return 0;
+		if (!quiet)
+			printf("skip %s\n", path);
+		return -1;
 	} else {
 		struct xmp_module_info mi;
 		xmp_get_module_info(x, &mi);
@@ -1016,8 +1029,9 @@ static int mode_solosum(uint64_t seed, int nframes, const char *path)
 		xmp_free_context(x);
 	}
 	if (nchn < 2) {
-		printf("skip %s\n", path);
-		return 0;
+		if (!quiet)
+			printf("skip %s\n", path);
+		return -1;
 	}
 	ngroups = nchn <= 6 ? nchn : vrng_range(2, 6);
 	if (ngroups == nchn) {
@@ -1029,8 +1043,9 @@ static int mode_solosum(uint64_t seed, int nframes, const char *path)
 	}
 
 	if (render16(path, &c, nframes, &full) < 0) {
-		printf("skip %s\n", path);
-		return 0;
+		if (!quiet)
+			printf("skip %s\n", path);
+		return -1;
 	}
 	/* free_voice() only ever evicts background voices (chn >= num_tracks) */
 	if (full.has_background && full.maxused >= full.maxvoc)
@@ -1047,13 +1062,14 @@ static int mode_solosum(uint64_t seed, int nframes, const char *path)
 			for (i = 0; i < XMP_MAX_CHANNELS; i++)
 				cg.mute[i] = (i < nchn && group_of[i] == g) ? 0 : 1;
 			if (render16(path, &cg, nframes, &part) < 0 || part.nsamples != full.nsamples) {
-				printf("oracle_fail superposition:timeline module=%s group=%d samples=%ld full=%ld (a muted render has a "
-				       "different length)\n", path, g, part.nsamples, full.nsamples);
+				if (!quiet)
+					printf("oracle_fail superposition:timeline module=%s group=%d samples=%ld full=%ld (a muted render "
+					       "has a different length)\n", path, g, part.nsamples, full.nsamples);
 				free(part.pcm);
 				free(clip);
 				free(sum);
 				free(full.pcm);
-				return 0;
+				return -1;
 			}
 			if (part.has_background && part.maxused >= part.maxvoc)
 				evict = 1;
@@ -1084,17 +1100,22 @@ static int mode_solosum(uint64_t seed, int nframes, const char *path)
 		}
 		free(clip);
 	}
-	if (exceed && !evict) {
-		printf("oracle_fail superposition:solo_sum module=%s groups=%d channels=%d samples_beyond_tolerance=%ld first=%ld "
-		       "worst=%ld rate=%d fmt=%d interp=%d amp=%d master=%d mix=%d pos=%d\n", path, ngroups, nchn, exceed, firstbad,
-		       worst, c.rate, c.fmt, c.interp, c.amp, c.master, c.mix, c.startpos);
+	if (exceed && !evict && !quiet) {
+		/* is it the Paula kernels?  the same configuration with the standard kernels decides */
+		const char *suffix = "";
+		if (c.a500 && mode_solosum(seed, nframes, path, 0, 1) == 0)
+			suffix = ":a500";
+		printf("oracle_fail superposition:solo_sum%s module=%s groups=%d channels=%d samples_beyond_tolerance=%ld first=%ld "
+		       "worst=%ld rate=%d fmt=%d interp=%d amp=%d master=%d mix=%d pos=%d a500=%d\n", suffix, path, ngroups, nchn, exceed, firstbad,
+		       worst, c.rate, c.fmt, c.interp, c.amp, c.master, c.mix, c.startpos, c.a500);
 	}
-	printf("solosumstat %s groups=%d channels=%d frames=%d compared=%ld clipped=%ld worst=%ld d0=%ld d1=%ld d2=%ld d3=%ld "
+	if (!quiet)
+		printf("solosumstat %s groups=%d channels=%d frames=%d compared=%ld clipped=%ld worst=%ld d0=%ld d1=%ld d2=%ld d3=%ld "
 	       "voice_limit_reached=%d maxused=%d maxvoc=%d beyond=%ld rate=%d interp=%d\n", base_name(path), ngroups, nchn, full.frames, compared,
 	       clipped, worst, hist[0], hist[1], hist[2], hist[3], evict, full.maxused, full.maxvoc, exceed, c.rate, c.interp);
 	free(sum);
 	free(full.pcm);
-	return 0;
+	return evict ? -1 : exceed;
 }
 
 /* ------------------------------------------------------------------ */
@@ -1189,7 +1210,7 @@ int main(int argc, char **argv)
 		else if (!strcmp(mode, "silence"))
 			mode_silence(seed, nframes, argv[i]);
 		else if (!strcmp(mode, "solosum"))
-			mode_solosum(seed, nframes, argv[i]);
+			mode_solosum(seed, nframes, argv[i], -1, 0);
 		else if (!strcmp(mode, "sep"))
 			mode_sep(seed, nframes, argv[i]);
 		else
